@@ -30,8 +30,9 @@ Step ==
           /\ Installed(Ev.r, Ev.cmds) /\ Picked(Ev.r, Ev.picks) /\ UNCHANGED <<links, faults>> /\ RoutingUnch
      \/ Ev.ev = "down" /\ links' = links \ {{Ev.a, Ev.b}} /\ UNCHANGED <<nbr, cost, faults, inst, choice, seen, det>> /\ RoutingUnch
      \/ Ev.ev = "up" /\ links' = links \cup {{Ev.a, Ev.b}} /\ UNCHANGED <<nbr, cost, faults, inst, choice, seen, det>> /\ RoutingUnch
-     \/ Ev.ev = "dead" /\ nbr' = [nbr EXCEPT ![Ev.r] = @ \ {Ev.n}]
-          /\ cost' = [cost EXCEPT ![Ev.r] = [d \in R |-> [cost[Ev.r][d] EXCEPT ![Ev.n] = Inf]]]
+     \* one dead-check pass of router r removed the neighbours ns (all unheard for the dead interval)
+     \/ Ev.ev = "dead" /\ nbr' = [nbr EXCEPT ![Ev.r] = @ \ { Ev.ns[x] : x \in 1..Len(Ev.ns) }]
+          /\ cost' = [cost EXCEPT ![Ev.r] = [d \in R |-> [n \in R |-> IF \E x \in 1..Len(Ev.ns) : Ev.ns[x] = n THEN Inf ELSE cost[Ev.r][d][n]]]]
           /\ Installed(Ev.r, Ev.cmds) /\ Picked(Ev.r, Ev.picks) /\ UNCHANGED <<links, faults>> /\ RoutingUnch
      \/ Ev.ev = "quiet" /\ UNCHANGED <<vars, seen, det>>
      \* publisher side: the model keeps the log; snapshots are the publisher's business (not observable here)
